@@ -57,6 +57,20 @@ example : ∃ s, run {} [.deliver 3, .workersDone, .nextEnter, .nextBatch, .next
     run {} [.deliver 3, .workersDone, .nextEnter, .nextBatch, .nextEnter, .nextFalseClean] = none :=
   ⟨_, rfl, rfl, rfl, rfl⟩
 
+/-- A Next that began after the Query context had ended - whether or not the cancellation has reached the
+    cursor's derived context yet (asynchronous propagation for non-standard Context types) - never decides
+    "complete": the state it decides is the context error. -/
+theorem C20_canceled_before_next (s s' : St) (e : Ev) (hr : Reachable s) (hin : s.inNext = true)
+    (hc : s.canceledAtEntry = true) (hf : s.finalized = false) (hs : step s e = some s') (hf' : s'.finalized = true)
+    (he : e ≠ .close) : s'.err = .canceled :=
+  canceled_before_next_aux s s' e hr hin hc hf hs hf' he
+
+/-- non-vacuity: the context ends, nothing has propagated to the internal context, all rows are ready and the
+    pipeline has exited; the next Next still decides "canceled" -/
+example : ∃ s s', Reachable s ∧ s.inNext = true ∧ s.canceledAtEntry = true ∧ s.finalized = false ∧
+    step s .nextFalseTerm = some s' ∧ s'.err = .canceled ∧ step s .nextFalseClean = none :=
+  ⟨_, _, ⟨[.deliver 1, .workersDone, .nextEnter, .nextBatch, .cancelCaller, .nextEnter], rfl⟩, rfl, rfl, rfl, rfl, rfl, rfl⟩
+
 theorem close_idempotent (s s' s'' : St) (h1 : step s .close = some s') (h2 : step s' .close = some s'') :
     s''.err = s'.err ∧ s''.finalized = s'.finalized ∧ s''.iterDone = s'.iterDone :=
   close_idempotent_aux s s' s'' h1 h2
